@@ -447,6 +447,15 @@ def run_vectors(S, prop):
 
 
 # element types that occupy no bits: a count prefix alone would then announce any number of elements
+# the same shapes as description tuples, for trees built through the constructors (no parser in front of the decoder)
+ZERO_WIDTH_TREES = [
+    ("built:dyn-of-empty-array", [("struct", "S", (("a", 0, ("dyn", ("arr", ("u", 8), 0)), None, None),))]),
+    ("built:dyn-of-u0", [("struct", "S", (("a", 0, ("dyn", ("u", 0)), None, None),))]),
+    ("built:dyn-of-i0", [("struct", "S", (("a", 0, ("dyn", ("i", 0)), None, None),))]),
+    ("built:dyn-of-negative-array", [("struct", "S", (("a", 0, ("dyn", ("arr", ("u", 8), -1)), None, None),))]),
+    ("built:dyn-of-empty-struct", [("struct", "Mark", (("pad", 0, ("arr", ("u", 16), 0), None, None),)), ("struct", "S", (("a", 0, ("dyn", ("ref", "Mark")), None, None),))]),
+]
+
 ZERO_WIDTH = [
     ("dyn-of-empty-array", "struct S { a @0: [[u8, 0]], }"),
     ("dyn-of-u0", "struct S { a @0: [u0], }"),
@@ -468,18 +477,34 @@ def zero_width_worker(chunk):
 
     S = Stats()
     for label, body in chunk:
-        text = 'version: "3"\n' + body + "\n"
         S.count("states")
         S.count("transitions")
-        try:
-            res = get_fcp_from_string(text, Logger({}))
-        except Exception:  # noqa  (C11's subject)
-            S.add("outcomes", "zero-width:front-end-raises")
-            continue
-        if not res.is_ok():
-            S.add("outcomes", "zero-width:refused-by-front-end")
-            continue
-        fcp = res.unwrap()
+        if label.startswith("built:"):
+            # a tree built through the constructors and accepted by the general verifier: the decoder is on its own
+            from .. import build
+            from fcp.verifier import make_general_verifier
+
+            text = print_schema(body)
+            try:
+                fcp = build.build_fcp(body, default_impls=True)
+                if make_general_verifier().verify(fcp).is_err():
+                    S.add("outcomes", "zero-width:refused-by-verifier")
+                    continue
+            except Exception:  # noqa  (a constructor that refuses the width is as good)
+                S.add("outcomes", "zero-width:refused-by-constructor")
+                continue
+            body = text
+        else:
+            text = 'version: "3"\n' + body + "\n"
+            try:
+                res = get_fcp_from_string(text, Logger({}))
+            except Exception:  # noqa  (C11's subject)
+                S.add("outcomes", "zero-width:front-end-raises")
+                continue
+            if not res.is_ok():
+                S.add("outcomes", "zero-width:refused-by-front-end")
+                continue
+            fcp = res.unwrap()
         S.add("nontrivial", label)
         lead = b"\x00" if "p @0" in body else b""
         for count in (4096, 200000, 2**32 - 1):
@@ -604,9 +629,9 @@ def run(prop, tier):
         run_codec_histories(r.stats, prop, tier)
         r.bounds["codec_call_history_depth"] = 3 if tier == "quick" else 4
     if prop == "C16":
-        for s in pmap(zero_width_worker, [[z] for z in ZERO_WIDTH]):
+        for s in pmap(zero_width_worker, [[z] for z in ZERO_WIDTH + ZERO_WIDTH_TREES]):
             r.stats.merge(s)
-        r.bounds["zero_width_element_schemas"] = len(ZERO_WIDTH)
+        r.bounds["zero_width_element_schemas"] = len(ZERO_WIDTH) + len(ZERO_WIDTH_TREES)
     r.rule = (
         "states = distinct (alignment context, type tree) struct shapes reached by BFS over the productions "
         "{leaf, Arr n=1..3, Dyn, Opt, nested struct 1|2 fields, pad offset p, tail on/off, field sequence}; "
